@@ -231,6 +231,88 @@ func main() {
 		add(3, 4)
 		check("after Clear and one Add")
 	}
+	// Long-history churn family: tens of thousands of operations on ONE instance over 40 keys and
+	// values in a deterministic pattern (a counter that wraps, maintenance every N operations,
+	// growth and shrink cycles), the touched key and value checked after every call and the whole
+	// map every 997 calls.
+	{
+		n := ev.Pick(r, 40000, 400000)
+		b := &maps.Bimap[int, int]{}
+		fwd, rev := map[int]int{}, map[int]int{}
+		bad := ""
+		full := func(i int) {
+			if b.Len() != len(fwd) || len(fwd) != len(rev) {
+				bad = fmt.Sprintf("after %d operations: Len = %d, model has %d pairs", i, b.Len(), len(fwd))
+				return
+			}
+			for k, v := range fwd {
+				gv, ok := b.GetForward(k)
+				gk, ok2 := b.GetReverse(v)
+				if !ok || !ok2 || gv != v || gk != k {
+					bad = fmt.Sprintf("after %d operations: pair (%d,%d): GetForward = (%d,%v), GetReverse = (%d,%v)", i, k, v, gv, ok, gk, ok2)
+					return
+				}
+			}
+			cnt := 0
+			b.Range(func(k, v int) bool { cnt++; return fwd[k] == v })
+			if cnt != len(fwd) {
+				bad = fmt.Sprintf("after %d operations: Range visits %d pairs, model has %d", i, cnt, len(fwd))
+			}
+		}
+		x := uint32(12345)
+		for i := 0; i < n && bad == ""; i++ {
+			x = x*1664525 + 1013904223
+			k, v, op := int(x>>8)%40, int(x>>16)%40, int(x>>24)%8
+			if ev.Tracing() {
+				ev.Trace(map[string]any{"family": "churn", "step": i, "op": op, "k": k, "v": v})
+			}
+			switch {
+			case op < 5:
+				b.Add(k, v)
+				if ov, ok := fwd[k]; ok {
+					delete(rev, ov)
+				}
+				if ok2, ok := rev[v]; ok {
+					delete(fwd, ok2)
+				}
+				fwd[k], rev[v] = v, k
+			case op == 5:
+				b.RemoveForward(k)
+				if ov, ok := fwd[k]; ok {
+					delete(rev, ov)
+					delete(fwd, k)
+				}
+			case op == 6:
+				b.RemoveReverse(v)
+				if ok2, ok := rev[v]; ok {
+					delete(fwd, ok2)
+					delete(rev, v)
+				}
+			default:
+				if i%5000 == 4999 {
+					b.Clear()
+					fwd, rev = map[int]int{}, map[int]int{}
+				}
+			}
+			gv, ok := b.GetForward(k)
+			mv, mok := fwd[k]
+			gk, ok2 := b.GetReverse(v)
+			mk, mok2 := rev[v]
+			if ok != mok || ok2 != mok2 || (ok && gv != mv) || (ok2 && gk != mk) || b.Len() != len(fwd) {
+				bad = fmt.Sprintf("after %d operations (last: op %d on key %d value %d): GetForward(%d) = (%d,%v) want (%d,%v); GetReverse(%d) = (%d,%v) want (%d,%v); Len %d want %d", i+1, op, k, v, k, gv, ok, mv, mok, v, gk, ok2, mk, mok2, b.Len(), len(fwd))
+			}
+			if i%997 == 0 {
+				full(i + 1)
+			}
+		}
+		if bad == "" {
+			full(n)
+		}
+		if bad != "" {
+			r.Report(ev.Violation{Sig: "family|churn", Msg: bad, Replay: map[string]any{"family": "churn", "operations": n}})
+		}
+		r.Set("churn_family_operations", n)
+	}
 	r.Set("large_size_family_calls", famCalls)
 	// nil receiver Len
 	var nb *maps.Bimap[int, int]
